@@ -27,6 +27,7 @@ type reNode struct {
 	inClose  bool
 	inReopen bool
 	calls    *int
+	nestKind int // which Broker call the node makes from inside: 0 Send, 1.. other calls (see nested)
 }
 
 func (n *reNode) Type() el.NodeType { return n.kind }
@@ -34,7 +35,26 @@ func (n *reNode) Type() el.NodeType { return n.kind }
 func (n *reNode) nested(where string) {
 	simrt.Probe("reentry." + where)
 	*n.calls++
-	n.broker.Send(context.Background(), "tb", &plainPayload{N: *n.calls})
+	ctx := context.Background()
+	switch n.nestKind {
+	case 1: // the node unregisters a helper node it owns
+		n.broker.RemoveNode(ctx, "aux")
+	case 2: // ... or a helper pipeline with its nodes
+		n.broker.RemovePipelineAndNodes(ctx, "tc", "auxp")
+	case 3:
+		n.broker.RegisterNode(el.NodeID(fmt.Sprintf("dyn%d", *n.calls)), &reNode{label: "dyn", kind: el.NodeTypeFilter, broker: n.broker, calls: n.calls})
+	case 4:
+		n.broker.SetSuccessThreshold("tb", 0)
+	case 5:
+		n.broker.IsAnyPipelineRegistered("tb")
+		n.broker.SuccessThresholdSinks("tb")
+	case 6:
+		n.broker.RegisterPipeline(el.Pipeline{PipelineID: "auxq", EventType: "tc", NodeIDs: []el.NodeID{"tbf", "tbs"}})
+	case 7:
+		n.broker.RemovePipeline("tc", "auxp")
+	default:
+		n.broker.Send(ctx, "tb", &plainPayload{N: *n.calls})
+	}
 }
 
 func (n *reNode) Process(ctx context.Context, e *el.Event) (*el.Event, error) {
@@ -90,6 +110,12 @@ func runReentrant(rc *RunCtx) {
 	broker.RegisterNode("tbs", mk("tbs", el.NodeTypeSink))
 	broker.RegisterPipeline(el.Pipeline{PipelineID: "q", EventType: "tb", NodeIDs: []el.NodeID{"tbf", "tbs"}})
 
+	// helpers a node may unregister from inside (nested removals)
+	broker.RegisterNode("aux", mk("aux", el.NodeTypeFilter))
+	broker.RegisterNode("auxf", mk("auxf", el.NodeTypeFormatter))
+	broker.RegisterNode("auxs", mk("auxs", el.NodeTypeSink))
+	broker.RegisterPipeline(el.Pipeline{PipelineID: "auxp", EventType: "tc", NodeIDs: []el.NodeID{"auxf", "auxs"}})
+
 	// pipeline under test: ta/p0 = [gated?] [re-entrant filter] formatter sink
 	useGated := tp.Choose(4, "gated") != 0
 	gf := &gated.Filter{Broker: broker}
@@ -114,6 +140,8 @@ func runReentrant(rc *RunCtx) {
 		re.inProc, re.inClose, re.inReopen = true, true, true
 		desc.Reentry = append(desc.Reentry, "Process", "Close", "Reopen")
 	}
+	re.nestKind = []int{0, 0, 0, 0, 1, 2, 3, 4, 5, 6, 7, 2, 1}[tp.Choose(13, "nested-call")]
+	desc.Reentry = append(desc.Reentry, "nested call: "+[]string{"Send", "RemoveNode(helper)", "RemovePipelineAndNodes(helper pipeline)", "RegisterNode", "SetSuccessThreshold", "getters", "RegisterPipeline", "RemovePipeline(helper)"}[re.nestKind])
 	var ids []el.NodeID
 	if useGated {
 		broker.RegisterNode("g", gf)
